@@ -59,6 +59,10 @@ func (r *BufferReader) Seek(offset int64, whence int) (int64, error) {
 }
 
 func (r *BufferReader) Skip(n int) error {
+	if n < 0 {
+		// a TLV length >= 2^63 converts to a negative int: never move backwards
+		return errors.New("encoding.BufferReader.Skip: backward skipping is not allowed")
+	}
 	newPos := r.pos + n
 	if newPos < 0 {
 		return errors.New("encoding.BufferReader.Skip: negative position")
